@@ -121,6 +121,8 @@ type pathState struct {
 	csvModel     bool
 	jsonDecode   value // harness closure standing in for encoding/json's decoder (vx.ModelJSONDecoder)
 	jsonReader   value
+	jsonFactory  value // vx.ModelJSONStream: harness factory for a stream object
+	jsonStream   value // the current stream object (iface)
 	lastRegexp   string
 	sharedWrites int
 	sql          *sqlScript
